@@ -125,6 +125,8 @@ package memfs
 //@   field nodes guarded_by mu
 //@   field index guarded_by mu
 //@   field time guarded_by mu
+// C09: whoever takes mu finds list and index consistent and must leave them so
+//@   monitor mu invariant DirInv(self)
 //@ tracktype [C01 C04 C09] memfs.Dir memfs.File
 //@ define typedNode(x iface) bool = (typeis(x, "*memfs.Dir") && hastype(payload(x), "memfs.Dir")) || (typeis(x, "*memfs.File") && hastype(payload(x), "memfs.File"))
 //@ define isNode(x iface) bool = typedNode(x) && allocated(payload(x))
@@ -217,10 +219,10 @@ package memfs
 //@   ensures result != nil ==> forall(k, 0 <= k && k < len(d.nodes) ==> nodeName(d.nodes[k]) != name)
 //@   ensures foralls(s, s != name ==> has(d.index, s) == old(has(d.index, s)) && d.index[s] == old(d.index[s]))
 //@   ensures result != nil ==> len(d.nodes) == old(len(d.nodes)) && forall(k, 0 <= k && k < len(d.nodes) ==> d.nodes[k] == old(d.nodes[k]))
-//@   loop 1 invariant Tree()
+//@   loop 1 invariant [C01 C04] Tree()
 //@   loop 1 invariant 0 <= i && i <= len(d.nodes) && DirInv(d) && held(d.mu)
 //@   loop 1 invariant forall(k, 0 <= k && k < i ==> nodeName(d.nodes[k]) != name)
-//@   loop 1 invariant ref(d.index) == old(ref(d.index)) && len(d.nodes) == old(len(d.nodes)) && foralls(s, has(d.index, s) == old(has(d.index, s)) && d.index[s] == old(d.index[s])) && forall(k, 0 <= k && k < len(d.nodes) ==> d.nodes[k] == old(d.nodes[k]))
+//@   loop 1 invariant [C01 C04] ref(d.index) == old(ref(d.index)) && len(d.nodes) == old(len(d.nodes)) && foralls(s, has(d.index, s) == old(has(d.index, s)) && d.index[s] == old(d.index[s])) && forall(k, 0 <= k && k < len(d.nodes) ==> d.nodes[k] == old(d.nodes[k]))
 //@   loop 1 decreases len(d.nodes) - i
 
 // a new directory over the given nodes (distinct normal names); the listing slice is adopted
@@ -334,9 +336,10 @@ package memfs
 //@   ensures result1 == nil ==> fresh(result0) && isa(result0, "memfs.Dir") && result0.name == newName && len(result0.nodes) == len(d.nodes)
 //@   ensures result1 == nil ==> forall(k, 0 <= k && k < len(d.nodes) ==> fresh(payload(result0.nodes[k])) && tag(result0.nodes[k]) == tag(d.nodes[k]) && nodeName(result0.nodes[k]) == nodeName(d.nodes[k]))
 //@   ensures forallp(r, dyntype(r), isa(r, "memfs.Dir") && !old(allocated(r)) ==> !old(allocated(arr(ptr(r, "memfs.Dir").nodes))))
-//@   loop 1 invariant Tree() && 0 <= i && i <= len(d.nodes) && len(nodescopy) == len(d.nodes) && fresh(arr(nodescopy)) && allocated(arr(nodescopy)) && off(nodescopy) == 0 && Unowned(arr(nodescopy)) && heldR(d.mu)
-//@   loop 1 invariant forall(k, 0 <= k && k < i ==> isNode(nodescopy[k]) && fresh(payload(nodescopy[k])) && tag(nodescopy[k]) == tag(d.nodes[k]) && nodeName(nodescopy[k]) == nodeName(d.nodes[k]))
-//@   loop 1 invariant forallp(r, dyntype(r), isa(r, "memfs.Dir") && !old(allocated(r)) ==> !old(allocated(arr(ptr(r, "memfs.Dir").nodes))))
+//@   loop 1 invariant 0 <= i && i <= len(d.nodes) && len(nodescopy) == len(d.nodes) && off(nodescopy) == 0 && heldR(d.mu)
+//@   loop 1 invariant [C01 C04] Tree() && fresh(arr(nodescopy)) && allocated(arr(nodescopy)) && Unowned(arr(nodescopy))
+//@   loop 1 invariant [C01 C04] forall(k, 0 <= k && k < i ==> isNode(nodescopy[k]) && fresh(payload(nodescopy[k])) && tag(nodescopy[k]) == tag(d.nodes[k]) && nodeName(nodescopy[k]) == nodeName(d.nodes[k]))
+//@   loop 1 invariant [C01 C04] forallp(r, dyntype(r), isa(r, "memfs.Dir") && !old(allocated(r)) ==> !old(allocated(arr(ptr(r, "memfs.Dir").nodes))))
 //@   loop 1 decreases len(d.nodes) - i
 //@ func copyNode [C01 C09]
 //@   requires Tree() && isNode(node)
@@ -461,3 +464,16 @@ package memfs
 //@   ensures err == nil ==> len(as(writer, "*memfs.FileHandler").file.data) == 0
 //@   ensures err != nil ==> writer == nil
 //@ func (*Filespace).Filespace [C01 C03]
+
+// ---- C09: the remaining readers of guarded state ----
+//@ func (*Dir).Size [C01 C09]
+//@   modifies $none
+//@   ensures result == len(d.nodes)
+//@ func (*Dir).ModTime [C01 C09]
+//@   modifies $none
+//@ func (*File).Size [C01 C09]
+//@   modifies $none
+//@   ensures result == len(f.data)
+//@ func (*File).ModTime [C01 C09]
+//@   modifies $none
+//@ func (*FileHandler).ResetPointer [C09]
